@@ -56,6 +56,9 @@ ASSUMED = [
     "(reported as an observation, outside the generator domain)",
     "int(x), float(x), complex(x), datetime.combine(x, ...) return an instance of exactly that class (conv_ok); T(x) "
     "returns an instance of T",
+    "a Vector object that is an ELEMENT of another vector (ragged >>) is modelled by the class its dtype dispatches to "
+    "(_Int, _Float, _String, _Date, Vector); after an in-place promotion the Python class stays what it was, such steps are "
+    "not compared",
     "the global monitor sees what passes through the wrapped public methods in the harness subprocess; a hit is blamed on a "
     "call only if all its Vector operands were truthful on entry",
 ]
@@ -927,7 +930,7 @@ def _observe_prog(case):
                 heap.extend(x.copy() if type(x).__name__ == "Row" else x for x in r)
                 if o["op"] == "sort":
                     st["perm"] = _sort_perm(src, _raw(r[0])[0])
-                if o["op"] == "arith" and o["other"][0] in ("vec", "vecl", "list"):
+                if o["op"] == "arith":        # any Vector / iterable operand (a list may come as a "scalar" tag)
                     vals = _raw(r[0])[0]
                     a = _raw(heap[o["i"]])[0]
                     st["fallback"] = bool(vals) and len(vals) == len(a) and all(
@@ -1158,6 +1161,7 @@ def emit(case, obs):
         return f"CForeign {cnat(min(int(obs.get('nhits', 0)), 4000))}"
     terms = []
     heap_dt = []                     # observed dtype kinds, to recognise _Date.__add__ (typed by Vector(results))
+    promoted_in_place = False
     try:
         for o, st in zip(case["ops"], obs["steps"]):
             if "broken" in st:
@@ -1175,6 +1179,13 @@ def emit(case, obs):
                     elif other[0] == "vec" and other[1] < len(heap_dt) and heap_dt[other[1]] is not None \
                             and heap_dt[other[1]][0] == "KInt":
                         aux["date_add"] = True
+            if "exc" not in st and o["op"] in ("set", "promote") and st["idx"][0] < len(heap_dt):
+                d0, d1 = heap_dt[st["idx"][0]], st["vecs"][0]["dt"]
+                if d0 is not None and d1 is not None and d0[0] != d1[0]:
+                    promoted_in_place = True
+            if promoted_in_place and "exc" not in st and any(t[0] == "V" for vo in st["vecs"] for t in vo["vals"]):
+                break        # an in-place promotion keeps the Python CLASS of the vector object (_Int stays _Int): the
+                             # model derives the class of a vector seen as an element from its dtype (see ASSUMED)
             t = _emit_step(o, st, aux)
             if t is None:
                 break
@@ -1293,52 +1304,7 @@ def _norm_method(m):
     return _METHOD_OP.get(m, m)
 
 
-# ------------------------------------------------------------------ known findings, evidence helpers
-
-def _has_none(vo):
-    return any(t[0] == "N" for t in vo["vals"])
-
-
-def known(case, obs, why):
-    """ids of the defects of the current tree (see Props/C03.v, the ..._refuted theorems)"""
-    if "foreign" in case:
-        for h in obs.get("hits", []):
-            m = h["method"].split(".")[-1]
-            res = h.get("result", {})
-            if m == "to_object" and res.get("dt") == ["KObject", False] and any(t[0] == "N" for t in res.get("vals", [])):
-                return "NEW-C03-1"
-            if m == "new" and res.get("dt") == ["KObject", False] and any(t[0] == "N" for t in res.get("vals", [])):
-                return "NEW-C03-2"
-            if m == "__rshift__" and any(t[0] == "V" for t in res.get("vals", [])):
-                return "NEW-C03-3"
-            if m == "copy" and len(h.get("args", [])) >= 2:
-                return "NEW-C03-4"
-            if m == "cast" and any(t[0] == "V" for t in res.get("vals", [])):
-                return "NEW-C03-5"
-            return None
-        return None
-    if "steps" not in obs:
-        return None
-    f = first_failure_inplace(case, obs)
-    if f is None:
-        return None
-    n, o, text = f
-    st = obs["steps"][n]
-    vo = next((x for x in st["vecs"] if vec_untruth(x)), None)
-    if vo is None:
-        return None
-    if o["op"] == "to_object" and vo["dt"] == ["KObject", False] and _has_none(vo):
-        return "NEW-C03-1"
-    if o["op"] == "new" and o["typesafe"] and o["x"] == ["N"] and vo["dt"] == ["KObject", False]:
-        return "NEW-C03-2"
-    if o["op"] == "rshift" and o["other"][0] == "tab" and any(t[0] == "V" for t in vo["vals"]):
-        return "NEW-C03-3"
-    if o["op"] == "copy_new":
-        return "NEW-C03-4"
-    if o["op"] == "cast" and any(t[0] == "V" for t in vo["vals"]):
-        return "NEW-C03-5"
-    return None
-
+# ------------------------------------------------------------------ evidence helpers
 
 def nontrivial(case, obs):
     if "broken" in obs:
